@@ -136,7 +136,11 @@ class FutureBase(object):
         # like to maintain their normal behavior), so these could still leave the scheduler in a
         # bad state if the process continues to run afterwards
         except Exception as e:
-            print("exception ignored in asynq on_computed callback: %s" % repr(e))
+            # safe_repr: an exception whose repr() raises must not escape from here into set_value()/set_error()
+            print(
+                "exception ignored in asynq on_computed callback: %s"
+                % core_helpers.safe_repr(e)
+            )
             traceback.print_exc()
 
     def _compute(self):
